@@ -489,7 +489,7 @@ func lexCommentOpen(l *lexer) stateFn {
 		til = len(l.input[l.start:])
 	}
 	l.pos += til
-	if string(l.input[l.pos-1]) == delimTrimWhitespace {
+	if l.pos > l.start && string(l.input[l.pos-1]) == delimTrimWhitespace {
 		l.pos--
 		l.emit(tokenText)
 		l.pos++
